@@ -82,7 +82,7 @@ def extra_step(chk):
 CFG = {
     "module": "SafeHtml.Props.C09",
     "extra_step": extra_step,
-    "proof_modules": ["SafeHtml.Model.Conc"],
+    "proof_modules": ["SafeHtml.Model.Conc", "SafeHtml.Proofs.Frozen"],
     "trusted_base": [
         KERNEL, TRANSLATOR, CORR, TMPL_MODEL, TT,
         "Model/Conc.lean: the concurrency model — critical sections under ONE mutex are atomic, the unlocked phase of a call only reads; "
@@ -110,9 +110,12 @@ CFG = {
                   "compared with the real package on generated histories (order-independence oracle); tools/racer runs thousands of multi-goroutine "
                   "scenarios (shared helpers in text/attribute/URL/script/RCDATA positions, failing members, first executions racing with read-only "
                   "calls, GOMAXPROCS 1–16) under the race detector and compares every call's result with sequential reference runs.",
-    "level_note": "PARTIAL: for concurrent FIRST executions the stability condition ('commit never rewrites a tree that an already analysed template "
-                  "executes') is stated (C09_frozen_statement) but not proved; it is covered by the race detector and the result comparison only. "
-                  "The model cannot exhibit: the Go memory model, the scheduler, races inside text/template or the data passed by the caller.",
+    "level_note": "The stability condition for concurrent FIRST executions ('no later analysis changes what an analysed template executes') is proved for "
+                  "every reachable state of the API model in Proofs/Frozen.lean (C09_frozen_reachable, settled_after_own_analysis, apiExecute_frozen, "
+                  "apiExecuteTemplate_frozen); what is NOT formalised is the last assembly step — instantiating Model/Conc.Stable with the API model's "
+                  "Execute/ExecuteTemplate calls and these lemmas — and that New/Parse/Clone leave an executed set's escaper alone. "
+                  "The model cannot exhibit: the Go memory model, the scheduler, races inside text/template or the data passed by the caller; "
+                  "those are covered by the race detector and the per-call comparison only.",
     "technique": "Lean 4 proof (serializability by induction over schedules; lock discipline by kernel evaluation over regenerated go/ast facts) + "
                  "API-history correspondence + multi-goroutine driver under the Go race detector with sequential reference runs",
     "search_rounds": 3,
